@@ -198,6 +198,8 @@ class Check:
             print("note:", n)
         if self.violations:
             return 1
+        if not ok_jobs and not self.known_hits and not self.undecided:
+            self.undecided.append(("-", "no harness of this run was decided"))
         if self.undecided:
             for jid, why in self.undecided:
                 print(f"UNDECIDED property={self.pid} harness={jid}: {why}")
